@@ -79,3 +79,14 @@ Proof.
   induction s as [|c s IH]; unfold utf8_encode in *; cbn [flat_map List.length]; [lia|].
   rewrite app_length. pose proof (utf8_encode_char_length c). lia.
 Qed.
+
+(* == of Rust strings is equality of the byte forms; of the model, equality of the scalar lists:
+   the same relation (no hypothesis on the code points is needed) *)
+From NV Require Import Lemmas.ViewLemmas.
+Theorem utf8_encode_eq_iff (s t : list N) : utf8_encode s = utf8_encode t <-> s = t.
+Proof.
+  split; [|intros ->; reflexivity]. intros E.
+  apply (lex_cmp_eq_iff N.compare s t); [intros; apply N.compare_eq_iff|].
+  rewrite <- utf8_order_preserved, E.
+  apply (lex_cmp_eq_iff N.compare); [intros; apply N.compare_eq_iff | reflexivity].
+Qed.
